@@ -283,6 +283,24 @@ def _check_request(res, case, req_bytes, key_draws, k):
                                          for e in exts):
         res.bad(tag + 'extension_offer', 'compress=%r offer=%r' % (
             case.get('compress'), exts))
+    allowed = {b'host': 1, b'upgrade': 1, b'connection': 1,
+               b'sec-websocket-key': 1, b'sec-websocket-version': 1,
+               b'user-agent': 1,
+               b'sec-websocket-protocol': 1 if case.get('protocols') else 0,
+               b'sec-websocket-extensions': 1 if case.get('compress') else 0}
+    for h, v in case.get('headers') or []:
+        k = h.encode('latin-1').lower()
+        allowed[k] = allowed.get(k, 0) + 1
+    seen = {}
+    for k, v in r.headers:
+        seen[k.lower()] = seen.get(k.lower(), 0) + 1
+    for k, n in seen.items():
+        if n != allowed.get(k, 0):
+            res.bad(tag + 'unexpected_header',
+                    'header %r appears %d time(s), expected %d; custom '
+                    'headers of this WebSocket: %r' % (
+                        k, n, allowed.get(k, 0), case.get('headers')))
+            break
     if case.get('agent'):
         if r.get(b'User-Agent') != case['agent'].encode():
             res.bad(tag + 'agent', '%r' % r.get(b'User-Agent'))
